@@ -97,6 +97,11 @@ func c03Bases() []*c03Base {
 // rebuild serialises items, recomputing each proposal line's sizes from its (possibly changed)
 // frame and every F> checksum, so that all outer layers stay sealed.
 func (b *c03Base) rebuild(frameData map[int][]byte, usize map[int]int) []byte {
+	return b.rebuildLines(frameData, usize, nil)
+}
+
+// rebuildLines additionally replaces whole lines (by item index) before the checksums are sealed.
+func (b *c03Base) rebuildLines(frameData map[int][]byte, usize map[int]int, lines map[int]string) []byte {
 	var out bytes.Buffer
 	sum := 0
 	for i, it := range b.Items {
@@ -122,6 +127,9 @@ func (b *c03Base) rebuild(frameData map[int][]byte, usize map[int]int) []byte {
 					}
 					line = strings.Join(f, " ")
 				}
+			}
+			if l, ok := lines[i]; ok {
+				line = l
 			}
 			for _, c := range []byte(line) {
 				sum += int(c)
@@ -184,6 +192,9 @@ var c03Bytes = []byte{0x00, 0x0d, 0x0a, 0x20, 0x2a, 0x2d, 0x30, 0x39, 0x3b, 0x3e
 var c03Nums = []string{"-1", "0", "1", "999999", "1000000", "2147483647", "2147483648", "9223372036854775808", "100000000000000000000"}
 var c03Lines = []string{"F", "F>", "F> ", "FS", "FS ", "FS !", "FS A", "FS +++++++", "FC", "FC EM", ";PQ", ";PQ:", ";FW", ";FW:", ";PM", "[", "[]", "[-]", "*", "***", "\x00", "\x00\x00", strings.Repeat("A", 300),
 	"FS !999999", "FS A5000", "FS !-1", "FS +!", "FC EM X 1 1 0", "FC EM MID -1 -1 0", "FD EM M 10 10 0", "FA P A B C 1_A 10", "FQ", "FF", "F> 00", ";PM: a", "; x", "*** error", "[x-B2F$]", "[x-F$]", ">"}
+// values for the numeric fields of a proposal line (block checksum re-sealed)
+var c03PropNums = []string{"-1", "0", "00", "1", "", "x", "0x12C", "+-1", "999999", "1000000", "2147483647", "2147483648", "1073741824", "9223372036854775807", "9223372036854775808", "100000000000000000000"}
+
 var c03MsgNums = []string{"-1", "0", "+1", "-d1", "10000000000", "3000000000", "2147483647", "99999999999999999999"}
 
 type digitRun struct{ s, e int }
@@ -285,6 +296,14 @@ func c03Cases(bases []*c03Base, thorough bool) []c03Case {
 				cs = append(cs, c03Case{bi, "line-repl", li, k, ""}, c03Case{bi, "line-ins", li, k, ""})
 			}
 			li++
+		}
+		// proposal-line fields with the block checksum re-sealed, so that the transfer still happens
+		for k := range b.Props {
+			for field := 1; field <= 5; field++ {
+				for ni := range c03PropNums {
+					cs = append(cs, c03Case{bi, "prop-field-resealed", k, field*100 + ni, ""})
+				}
+			}
 		}
 		// layer 2/3: inside the compressed payload, outer layers re-sealed
 		for fi := range b.Frames {
@@ -393,6 +412,14 @@ func (c c03Case) materialise(bases []*c03Base, shorts []string) []byte {
 		default:
 			return cat(raw[:it.Off], []byte(c03Lines[c.B]+"\r"), raw[it.Off:])
 		}
+	case "prop-field-resealed":
+		pi := b.Props[c.A]
+		f := strings.Fields(b.Items[pi].Line)
+		field, ni := c.B/100, c.B%100
+		if field < len(f) {
+			f[field] = c03PropNums[ni]
+		}
+		return b.rebuildLines(nil, nil, map[int]string{pi: strings.Join(f, " ")})
 	case "payload", "payload-crc-resealed":
 		fi := b.Frames[c.A]
 		data := append([]byte{}, b.Items[fi].Frame.Data...)
